@@ -129,6 +129,11 @@ var catalogue = []expr{
 	{"sum-int", "N sum ."}, {"sum-int", "R sum .x"}, {"sum-float", "F sum ."}, {"mean-float", "F mean ."}, {"mean-int", "N mean ."},
 	{"max", "F max ."}, {"min", "N min ."}, {"median", "N median ."}, {"count", "(N | F) count"},
 	{"nest", "R nest |x|g"}, {"nest", "R nest ~|y|g"}, {"join", "R <&> R2"}, {"join", "R -&- R2"}, {"join", "R <-> R2"}, {"join", "(R <&> R2) orderby [.x, .y, .z]"},
+	// ordering of tuples by the tuples themselves, and printing of sets that mix kinds and shapes
+	{"orderby-tuples", "R orderby ."}, {"orderby-tuples", "(R <&> R2) orderby ."}, {"orderby-tuples", "W orderby ."}, {"orderby-tuples", "W rank (r: .)"},
+	{"orderby-tuples", "(W => (. +> (k0: 0))) orderby ."},
+	{"mixed-set", "H"}, {"mixed-set", "//str.repr(H)"}, {"mixed-set", "H orderby ."}, {"mixed-set", "H | N"}, {"mixed-set", "{true, (a: 1)}"},
+	{"mixed-set", "{{}, (a: 1), (b: 2)}"}, {"mixed-set", "$\"${H}\""}, {"mixed-set", "H => [.]"},
 	// chains of joins: rows of a join result are joined again, one-to-many, then counted or printed
 	{"join-chain", "(R <&> R2) <&> R3"}, {"join-chain", "((R <&> R2) <&> R3) count"}, {"join-chain", "((R <&> R2) <&> R3) => .w"},
 	{"join-chain", "(R <&> R2 <&> R3) orderby [.x, .y, .z, .w]"},
@@ -139,6 +144,7 @@ var catalogue = []expr{
 	// order in which the description's entries are enumerated
 	{"out-dir", "D >> \\v $\"${v}\""}, {"out-dir", "(D >> \\v $\"${v}\") +> {\"zzbad\": (file: 42)}"},
 	{"out-dir", "(D >> \\v $\"${v}\") +> {\"a0\": (ifExists: \"bogus\", file: \"x\")}"},
+	{"zero-sign", "(N => . * 0) => 1 / ."}, {"zero-sign", "(N => . % 1) => 1 / ."}, {"zero-sign", "(N => -(. * 0)) => //str.repr(1 / .)"},
 	{"map", "N => . % 7"}, {"map", "R => .y"}, {"where", "N where . % 2 = 0"}, {"where", "R where .y > 1"},
 	{"union", "N | (N => . + 3)"}, {"intersect", "N & (N => . + 3)"}, {"diff", "N &~ (N => . + 3)"},
 	{"merge-dict", "D +> D2"}, {"merge-tuple", "T +> T2"}, {"dict-union", "D | D2"},
@@ -279,9 +285,36 @@ func Run(c *run.Ctx) {
 	t := c.Tape
 	g := &gen{t}
 	size := func() int { return t.Range(9, 24) } // frozen keeps insertion order for <= 8 members
-	names := []string{"N", "F", "S", "R", "R2", "D", "D2", "T", "T2", "R3"}
+	// W: same-named tuples of ten attributes whose attributes order them in opposite ways; H: a set of values of
+	// different kinds and tuple shapes
+	var ws []string
+	nw := g.t.Range(9, 14)
+	for i := 0; i < nw; i++ {
+		var as []string
+		for k := 0; k < 10; k++ {
+			v := i
+			if k%2 == 1 {
+				v = nw - i
+			}
+			as = append(as, fmt.Sprintf("k%d: %d", k, v+g.t.Draw(2)*100*(k%3)))
+		}
+		ws = append(ws, "("+strings.Join(as, ", ")+")")
+	}
+	wsrc := "{" + strings.Join(ws, ", ") + "}"
+	hpool := []string{"(a: 1)", "(a: 2)", "(b: 1)", "(a: 1, b: 2)", "(a: 2, b: 1)", "(c: 0)", "3", "4.5", `"s"`, `"t"`, "[1, 2]", "[3]", "{4}", "{5, 6}", "true", "{}", `{"k": 1}`, "(a: (b: 1))", "{(a: 1)}", "{|x| (1), (2)}", `<<"b">>`}
+	var hs []string
+	hseen := map[string]bool{}
+	for len(hs) < 10 {
+		h := hpool[g.t.Draw(len(hpool))]
+		if !hseen[h] {
+			hseen[h] = true
+			hs = append(hs, h)
+		}
+	}
+	hsrc := "{" + strings.Join(hs, ", ") + "}"
+	names := []string{"N", "F", "S", "R", "R2", "D", "D2", "T", "T2", "R3", "W", "H"}
 	srcs := []string{g.nums(size(), false), g.nums(size(), true), g.strs(size()), g.rel(size(), [2]string{"x", "y"}), g.rel(size(), [2]string{"y", "z"}),
-		g.dict(size()), g.dict(size()), g.tuple(size()), g.tuple(size()), g.rel(size(), [2]string{"w", "z"})}
+		g.dict(size()), g.dict(size()), g.tuple(size()), g.tuple(size()), g.rel(size(), [2]string{"w", "z"}), wsrc, hsrc}
 	lets := ""
 	for i, n := range names {
 		lets += fmt.Sprintf("let %s = %s; ", n, srcs[i])
